@@ -116,6 +116,14 @@ impl Parsable for ValueStoreBuilder {
                     unimplemented!()
                 };
 
+                // The offsets are stored in the tail, which is at most 65535 bytes long.
+                if value_count > u16::MAX as usize {
+                    return Err(format_error!(
+                        &format!("Too many values ({value_count}) for an indexed value store"),
+                        parser
+                    ));
+                }
+
                 // [FIXME] A lot of value means a lot of allocation.
                 // A wrong value here (or a carefully choosen one) may break our program.
                 let mut value_offsets: Vec<Offset> = Vec::with_capacity(value_count + 1);
@@ -128,7 +136,12 @@ impl Parsable for ValueStoreBuilder {
                     } else {
                         parser.read_usized(offset_size)?.into()
                     };
-                    assert!(value.is_valid(data_size));
+                    if !value.is_valid(data_size) {
+                        return Err(format_error!(
+                            &format!("Value offset ({value}) is out of the store data ({data_size})"),
+                            parser
+                        ));
+                    }
                     elem.write(value);
                 }
                 unsafe { value_offsets.set_len(value_count) }
@@ -151,6 +164,15 @@ impl DataBlockParsable for ValueStore {
         reader: &Reader,
     ) -> Result<Self::Output> {
         let (store_builder, data_size) = intermediate;
+        if data_size
+            .into_u64()
+            .checked_add(BlockCheck::Crc32.size() as u64)
+            .is_none_or(|size| size > header_offset.into_u64())
+        {
+            return Err(format_error!(
+                "Value store data is declared bigger than what is before the store tail"
+            ));
+        }
         let reader = reader.cut_check(
             header_offset - data_size - ASize::from(BlockCheck::Crc32.size()),
             data_size,
